@@ -24,7 +24,7 @@ CODES = ['1;96', '36', '1;94', '95', '2;35', '93', '1;33', '35', '1;37', '1;92',
 
 def plan(tier, seed):
     if tier == 'quick':
-        return [{'n': 45} for _ in range(12)] + [{'mode': 'proc', 'n': 3} for _ in range(2)] + [{'mode': 'gdb', 'n': 25, 'gdb_shim': True} for _ in range(2)]
+        return [{'n': 45} for _ in range(12)] + [{'mode': 'proc', 'n': 8} for _ in range(2)] + [{'mode': 'gdb', 'n': 25, 'gdb_shim': True} for _ in range(2)]
     return [{'n': 350} for _ in range(52)] + [{'mode': 'proc', 'n': 40} for _ in range(8)] + [{'mode': 'gdb', 'n': 250, 'gdb_shim': True} for _ in range(4)]
 
 
@@ -221,6 +221,46 @@ def paste_back(ctx, script, rng):
             return
 
 
+def run_on_terminal(cmd, stdin, env2, cols, errfile):
+    """stdout is a pseudo-terminal `cols` wide (output post-processing off, so a newline stays a newline)"""
+    import fcntl
+    import os
+    import pty
+    import select
+    import struct
+    import subprocess
+    import termios
+    m, sl = pty.openpty()
+    fcntl.ioctl(sl, termios.TIOCSWINSZ, struct.pack('HHHH', 24, cols, 0, 0))
+    attrs = termios.tcgetattr(sl)
+    attrs[1] &= ~termios.OPOST
+    termios.tcsetattr(sl, termios.TCSANOW, attrs)
+    with open(errfile, 'wb') as ef:
+        p = subprocess.Popen(cmd, stdin=subprocess.PIPE, stdout=sl, stderr=ef, env=env2)
+        os.close(sl)
+        try:
+            p.stdin.write(stdin)
+            p.stdin.close()
+        except BrokenPipeError:
+            pass
+        out = b''
+        while True:
+            r, _, _ = select.select([m], [], [], 300)
+            if not r:
+                p.kill()
+                break
+            try:
+                chunk = os.read(m, 65536)
+            except OSError:
+                break           # EIO: the other end is closed
+            if not chunk:
+                break
+            out += chunk
+        p.wait(timeout=300)
+        os.close(m)
+    return (p.returncode, out.decode('utf-8', 'replace'), open(errfile, 'rb').read().decode('utf-8', 'replace'))
+
+
 def run_proc(ctx, spec):
     """real processes: `main.py --color -l FILE` vs `main.py -C -l FILE` with the same commands typed at the prompt (stdin);
     stripped coloured stdout/stderr must equal the plain ones"""
@@ -252,12 +292,19 @@ def run_proc(ctx, spec):
             e2 = {k2: v for k2, v in os.environ.items() if not k2.startswith('LC_') and k2 != 'LANG'}
             e2['LC_ALL'] = 'C.UTF-8'
             outs = {}
+            cols = rng.choice([None, None, 20, 40, 80, 200])      # None: stdout is a pipe; a number: a terminal that wide
             for flag in ('-C', '--color'):
-                r = subprocess.run(['/venv/bin/python', os.path.join(env.REPO, 'main.py'), flag] + opts + ['-l', fn], input=stdin, stdout=subprocess.PIPE, stderr=subprocess.PIPE, timeout=300, env=e2)
-                outs[flag] = (r.returncode, r.stdout.decode('utf-8', 'replace'), r.stderr.decode('utf-8', 'replace'))
+                cmd = ['/venv/bin/python', os.path.join(env.REPO, 'main.py'), flag] + opts + ['-l', fn]
+                if cols is None:
+                    r = subprocess.run(cmd, input=stdin, stdout=subprocess.PIPE, stderr=subprocess.PIPE, timeout=300, env=e2)
+                    outs[flag] = (r.returncode, r.stdout.decode('utf-8', 'replace'), r.stderr.decode('utf-8', 'replace'))
+                else:
+                    outs[flag] = run_on_terminal(cmd, stdin, e2, cols, os.path.join(d, 'stderr.txt'))
+                    ctx.count('processes_writing_to_a_terminal')
                 ctx.count('processes')
             ctx.ev()
-            case = {'script': {'lines': lines, 'after': cmds, 'hooks': {}, 'filter': opts[1] if opts else None, 'stop': None, 'show_unprocessed': True}, 'process': True}
+            case = {'script': {'lines': lines, 'after': cmds, 'hooks': {}, 'filter': opts[1] if opts else None, 'stop': None, 'show_unprocessed': True}, 'process': True,
+                    'terminal_columns': cols}
             p, c = outs['-C'], outs['--color']
             if '\x1b' in p[1] or '\x1b' in p[2]:
                 ctx.violation('escape-when-off', 'main.py -C wrote an escape sequence', case)
